@@ -16,6 +16,7 @@ GEN_SPEC = {"items": [
     {"kind": "calls", "file": _F, "func": "TimingWheel.removeTask", "as": "removeTask_calls"},
     {"kind": "calls", "file": _F, "func": "TimingWheel.scanAndRunTasks", "as": "scan_calls"},
     {"kind": "calls", "file": _F, "func": "TimingWheel.drainAll", "as": "drain_calls"},
+    {"kind": "calls", "file": _F, "func": "TimingWheel.runTasks", "as": "runTasks_calls"},
     {"kind": "calls", "file": _F, "func": "TimingWheel.SetTimer", "as": "SetTimer_calls"},
     {"kind": "calls", "file": _F, "func": "TimingWheel.MoveTimer", "as": "MoveTimer_calls"},
     {"kind": "calls", "file": _F, "func": "TimingWheel.RemoveTimer", "as": "RemoveTimer_calls"},
@@ -34,7 +35,10 @@ RULE = ("one wheel per case: slot count N in {1..7,10,16,60,300}, interval in {1
         "{1,N-1,N,N+1,2N,2N+1} or uniform up to 3N+2) followed by ticks past the last due time, plus a directed "
         "stream `ticks^phase; Set k d1; ticks^j; Move|Set k d2; ticks^(3N+2)` over all phases of small wheels, a "
         "shutdown stream (Drain then ticks, Stop then further calls, double Stop) and a malformed stream (nil key, "
-        "delay <= 0, delay < interval, calls after Drain, interval/slots <= 0); non-trivial = at least one callback "
+        "delay <= 0, delay < interval, calls after Drain, interval/slots <= 0) and a gated stream (slow callbacks: the "
+        "execute callback of one task of a 3-5 task batch is held on a driver gate while later ticks fire further batches "
+        "and further calls arrive; the drain function is held with 5-16 pending tasks, i.e. below and above drainWorkers, "
+        "while ticks arrive); non-trivial = at least one callback "
         "observed and at least one Move or re-Set of a pending key; distinct = distinct canonical case JSON")
 TRUSTED = ["the wheel model uses a plain association list for the timers index; that SafeMap refines a plain map is proved "
            "(c10_safemap_refines_map) and corresponded on its own histories (kind safemap)",
@@ -43,11 +47,15 @@ TRUSTED = ["the wheel model uses a plain association list for the timers index; 
            "input_distribution as obs:settle-timeout)",
            "fake ticker timex.NewFakeTicker: one Tick() = one receive on ticker.Chan() by the run loop"]
 ASSUMPTIONS = ["operations are serialised through the run loop (the driver issues one call at a time and waits for "
-               "the loop to finish it); callbacks are observed after they have run, attributed to the preceding call",
+               "the loop to finish it); callbacks may still be running (held on a driver gate) when later calls arrive: a "
+               "callback is attributed to the call during which its batch goroutine ran its first callback (goroutine id), "
+               "a drained pair to the latest Drain call, whenever it completes",
                "MoveTimer/SetTimer delays below one interval and calls other than ticks/Stop after Drain are outside "
                "the property text: checked against the model only (model_ok), spec_ok stops at the first such call"]
 
 KEYS = ["k0", "k1", "k2", "k3", "k4", "k5"]
+MANY = ["k%d" % i for i in range(16)]
+GATES = ("hold", "release", "holddrain", "releasedrain")
 
 
 def _delay(rng, n, iv, sub):
@@ -143,6 +151,66 @@ def _directed(rng):
     return {"kind": "wheel", "interval": iv, "slots": n, "calls": calls}
 
 
+def _gated_exec(rng):
+    """a batch of 3-5 tasks due at the same tick with the execute callback of one of them held on a driver gate
+    while later ticks fire further batches and further calls arrive; released later (or at the end of the case)"""
+    n = rng.choice([1, 2, 3, 4, 5, 6, 10])
+    iv = rng.choice([1, 1000])
+    s = rng.randint(1, 2 * n + 1)
+    keys = list(MANY)
+    rng.shuffle(keys)
+    nb = rng.randint(3, 5)
+    batch, rest = keys[:nb], keys[nb:]
+    calls = [{"op": "tick"} for _ in range(rng.randrange(n))]
+    for i, k in enumerate(batch):
+        calls.append({"op": "set", "key": k, "val": 10 + i, "delay": s * iv})
+    followers = rest[:rng.randint(2, 5)]
+    for i, k in enumerate(followers):
+        calls.append({"op": "set", "key": k, "val": 30 + i, "delay": (s + rng.randint(1, 3)) * iv})
+    held = [batch[0] if rng.random() < 0.6 else rng.choice(batch[:-1])]
+    if rng.random() < 0.3:
+        held.append(rng.choice(followers))
+    for k in held:
+        calls.append({"op": "hold", "key": k})
+    calls.extend({"op": "tick"} for _ in range(s))
+    for _ in range(rng.randint(1, 5)):
+        r = rng.random()
+        if r < 0.6:
+            calls.append({"op": "tick"})
+        elif r < 0.75:
+            calls.append({"op": "set", "key": rng.choice(rest[5:]), "val": 50, "delay": rng.randint(1, n + 1) * iv})
+        elif r < 0.9:
+            calls.append({"op": "move", "key": rng.choice(followers), "delay": rng.randint(1, n + 2) * iv})
+        else:
+            calls.append({"op": "remove", "key": rng.choice(followers)})
+    if rng.random() < 0.8:
+        for k in held:
+            calls.append({"op": "release", "key": k})
+    calls.extend({"op": "tick"} for _ in range(2 * n + 4))
+    return {"kind": "wheel", "interval": iv, "slots": n, "calls": calls}
+
+
+def _gated_drain(rng):
+    """Drain with more pending tasks than drainWorkers while the drain function is held; ticks arrive meanwhile"""
+    n = rng.choice([1, 2, 3, 4, 5, 10])
+    iv = rng.choice([1, 1000])
+    nk = rng.choice([5, 9, 10, 12, 14, 16])
+    calls = [{"op": "tick"} for _ in range(rng.randrange(n))]
+    for i, k in enumerate(MANY[:nk]):
+        calls.append({"op": "set", "key": k, "val": i, "delay": rng.randint(1, 3 * n) * iv})
+    calls.extend({"op": "tick"} for _ in range(rng.randint(0, 2)))
+    if rng.random() < 0.3:
+        calls.append({"op": "remove", "key": rng.choice(MANY[:nk])})
+    calls.append({"op": "holddrain"})
+    calls.append({"op": "drain"})
+    calls.extend({"op": "tick"} for _ in range(rng.randint(1, n + 3)))
+    calls.append({"op": "releasedrain"})
+    calls.extend({"op": "tick"} for _ in range(rng.randint(1, 3 * n + 1)))
+    if rng.random() < 0.5:
+        calls.append({"op": "stop"})
+    return {"kind": "wheel", "interval": iv, "slots": n, "calls": calls}
+
+
 def _sm_gets(keys):
     return [{"op": "get", "k": k} for k in keys]
 
@@ -199,7 +267,11 @@ def generate(rng, tier, n):
         cases.append({"kind": "wheel", "interval": -5, "slots": -1, "calls": []})
     while len(cases) < n:
         r = rng.random()
-        if r < 0.3:
+        if r < 0.12:
+            cases.append(_gated_exec(rng))
+        elif r < 0.2:
+            cases.append(_gated_drain(rng))
+        elif r < 0.42:
             cases.append(_directed(rng))
         elif r < 0.96 or tier == "search":
             cases.append(_rand_case(rng, False))
@@ -225,7 +297,7 @@ def search(rng, problems):
                     calls.extend({"op": "tick"} for _ in range(3 * n + 2))
                     out.append({"kind": "wheel", "interval": 1000, "slots": n, "calls": calls})
     rng.shuffle(out)
-    return out[:300] + [_directed(rng) for _ in range(200)]
+    return out[:300] + [_directed(rng) for _ in range(200)] + [_gated_exec(rng) for _ in range(60)] + [_gated_drain(rng) for _ in range(60)]
 
 
 def _key(k):
@@ -264,17 +336,19 @@ def encode(case, obs):
     for c in case["calls"]:
         op = c["op"]
         if op == "set":
-            calls.append("CSet %s %s %s" % (_key(c["key"]), cnat(c["val"]), cZ(c["delay"])))
+            calls.append("XC (CSet %s %s %s)" % (_key(c["key"]), cnat(c["val"]), cZ(c["delay"])))
         elif op == "move":
-            calls.append("CMove %s %s" % (_key(c["key"]), cZ(c["delay"])))
+            calls.append("XC (CMove %s %s)" % (_key(c["key"]), cZ(c["delay"])))
         elif op == "remove":
-            calls.append("CRemove %s" % _key(c["key"]))
+            calls.append("XC (CRemove %s)" % _key(c["key"]))
         elif op == "tick":
-            calls.append("CTick")
+            calls.append("XC CTick")
         elif op == "drain":
-            calls.append("CDrain")
+            calls.append("XC CDrain")
+        elif op in GATES:
+            calls.append("XGate")
         else:
-            calls.append("CStop")
+            calls.append("XC CStop")
     os_ = ["mkObs %s %s %s" % (cnat(o["err"]), _pairs(o["fired"]), _pairs(o["drained"])) for o in obs.get("obs", [])]
     return "CW (mkcase %s %s %s %s %s)" % (cZ(case["interval"]), cZ(case["slots"]), clist(calls), cbool(obs.get("new_ok", False)), clist(os_))
 
@@ -312,9 +386,16 @@ def bucket(case, obs):
     for c in case["calls"]:
         if c["op"] == "drain":
             seen_drain = True
-        elif seen_drain and c["op"] not in ("tick", "stop"):
+        elif seen_drain and c["op"] not in ("tick", "stop") + GATES:
             out.append("scope:call-after-drain")
             break
+    if "hold" in kinds:
+        out.append("gate:execute-held-across-ticks")
+    if "holddrain" in kinds:
+        npend = sum(1 for c in case["calls"] if c["op"] == "set")
+        out.append("gate:drain-held-%s-drainWorkers" % ("over" if npend > 8 else "within"))
+    if obs.get("late"):
+        out.append("obs:callback-after-last-call")
     errs = {o["err"] for o in obs.get("obs", [])}
     out += ["err:%d" % e for e in sorted(errs) if e]
     if obs.get("timeouts"):
